@@ -472,7 +472,7 @@ def build_grid_shape(rng, b, shape, n_sub):
         blocks, bits = qa_blocks(rng, kind, n_el, MAX_N, n_sub)
         tids = tids + blocks
     for s in range(n_sub):
-        f = {i: distinct_values(b, i, rng, 12) for i in set(elems)}
+        f = {i: distinct_values(b, i, rng, 12) for i in sorted(set(elems))}
         f[31031] = bits[s]
         f[33007] = distinct_values(b, 33007, rng, 40)
         if what != 'attrs':
@@ -608,7 +608,7 @@ def bitmap_case(rng, b, class33, n_sub, seqs):
     for s in range(n_sub):
         # replication counts of the prefix: mostly the same in all subsets
         f = {31031: bits[s], 31002: cnts[s], 31001: c31 if rng.random() < 0.75 else [rng.randint(0, 3) for _ in range(4)]}
-        for i in set(pool):
+        for i in sorted(set(pool)):
             f[i] = distinct_values(b, i, rng, 24)
         per.append(f)
     return ids, per, 'bitmap:' + '+'.join(sorted(tags))
